@@ -131,6 +131,27 @@ func callBulk(elems ...*gripql.GraphElement) c17Call {
 		return fmt.Sprintf("ins=%d,err=%d", st.result.InsertCount, st.result.ErrorCount)
 	}}
 }
+func callAddSchema(g string) c17Call {
+	return c17Call{Name: "AddSchema(" + g + ")", Do: func(s *server.GripServer) string {
+		_, err := s.AddSchema(context.Background(), &gripql.Graph{Graph: g, Vertices: []*gripql.Vertex{{Gid: "P", Label: "P"}}})
+		return errS(err)
+	}}
+}
+func callGetSchema(g string) c17Call {
+	return c17Call{Read: true, Name: "GetSchema(" + g + ")", Do: func(s *server.GripServer) string {
+		sc, err := s.GetSchema(context.Background(), &gripql.GraphID{Graph: g})
+		if err != nil {
+			return "noschema"
+		}
+		return fmt.Sprintf("schema:%d-vertices", len(sc.Vertices))
+	}}
+}
+func callListGraphs() c17Call {
+	return c17Call{Name: "ListGraphs()", Do: func(s *server.GripServer) string {
+		_, err := s.ListGraphs(context.Background(), &gripql.Empty{})
+		return errS(err)
+	}}
+}
 func callTraversalCount(g string) c17Call {
 	return c17Call{Read: true, Name: "Traversal(" + g + ",V().count())", Do: func(s *server.GripServer) string {
 		sink := &rowSink{}
@@ -185,6 +206,9 @@ func c17Scns() []c17Scn {
 		{Name: "BulkAdd || traversal", Setup: base, Clients: [][]c17Call{{callBulk(v("g1", "c", "P"), v("g1", "d", "Q"))}, {callTraversalCount("g1")}}},
 		{Name: "BulkAdd || AddVertex same id", Setup: base, Clients: [][]c17Call{{callBulk(v("g1", "c", "P"), v("g1", "d", "Q"))}, {callAddVertex("g1", "c", "Q")}}},
 		{Name: "disjoint-id writers", Setup: base, Clients: [][]c17Call{{callAddVertex("g1", "c", "P"), callAddEdge("g1", "f", "c", "a", "x")}, {callAddVertex("g1", "d", "Q"), callAddEdge("g1", "h", "d", "b", "y")}}},
+		{Name: "AddSchema || GetSchema", Setup: base, Clients: [][]c17Call{{callAddSchema("g1")}, {callGetSchema("g1")}}},
+		{Name: "AddSchema || AddSchema || GetSchema", Setup: base, Clients: [][]c17Call{{callAddSchema("g1")}, {callAddSchema("g1")}, {callGetSchema("g1")}}},
+		{Name: "AddGraph || GetVertex || ListGraphs", Setup: base, Clients: [][]c17Call{{callAddGraph("g2")}, {callGetVertex("g1", "a")}, {callListGraphs()}}},
 		{Name: "two relabels || reader", Setup: base, Clients: [][]c17Call{{callAddVertex("g1", "a", "Q")}, {callAddVertex("g1", "a", "R")}, {callGetVertex("g1", "a")}}},
 	}
 	// every unordered pair (a call may race with itself) of a 9-call alphabet whose ids are forced to
@@ -296,7 +320,7 @@ func c17Scenarios(tier string) []schedScenario {
 		allowed := sequentialOutcomes(sc)
 		var lastDB gdbi.GraphDB
 		var lastSrv *server.GripServer
-		out = append(out, schedScenario{Name: sc.Name, Class: sc.Name, Bound: bound, MaxExec: maxExec, Budget: budget,
+		out = append(out, schedScenario{Name: sc.Name, Class: sc.Name, Bound: bound, MaxExec: maxExec, Budget: budget, Race: true,
 			Accept: func(o []string) string {
 				if len(o) != 1 {
 					return fmt.Sprintf("harness produced %d observations", len(o))
@@ -347,10 +371,10 @@ func c17Scenarios(tier string) []schedScenario {
 func C17(tier string, args []string) int {
 	w := &schedWorker{prop: "C17", scenarios: c17Scenarios(tier)}
 	return runSched("C17", tier, args, w,
-		"13 hand-written scenarios of 2-3 concurrent clients with 1-2 calls each plus all 55 unordered pairs of a 10-call alphabet (9 edits and a traversal reading the out-edges of a) with colliding ids on a graph holding two edges (same-id writes, add/delete of an edge and of its endpoint, re-adding an edge while reading it, graph creation/deletion against writes, bulk load against a traversal and against a single write, disjoint writers, relabels against a reader) on the real GripServer handlers; preemption bound 2 (3 thorough) with state cache; every execution's (return values, final observation of all graphs) must be one of the outcomes of the sequential orders of the same calls, computed by running the real code unscheduled; no panic, no deadlock",
+		"16 hand-written scenarios of 2-3 concurrent clients with 1-2 calls each plus all 55 unordered pairs of a 10-call alphabet (9 edits and a traversal reading the out-edges of a) with colliding ids on a graph holding two edges (same-id writes, add/delete of an edge and of its endpoint, re-adding an edge while reading it, graph creation/deletion against writes, bulk load against a traversal and against a single write, disjoint writers, relabels against a reader, schema upload against schema read, graph creation against lookups and graph listing) on the real GripServer handlers; preemption bound 2 (3 thorough) with state cache; every execution's (return values, final observation of all graphs) must be one of the outcomes of the sequential orders of the same calls, computed by running the real code unscheduled; no panic, no deadlock; no data race (two conflicting hooked accesses unordered by happens-before in any explored execution)",
 		[]string{
 			"scheduling points: before every key-value call of memkv, at memkv's writer lock, at every channel/goroutine/wait-group operation of server/api.go, kvgraph, kvindex, the pipeline and its processors; key-value calls themselves are atomic (memkv is a serialisable store)",
 			"the sequential reference is the implementation itself, so C03's sequential defects are not charged again; label-index components are excluded from the final observation for the same reason",
-			"unsynchronised memory accesses between scheduling points are not observed by this check (the cooperative scheduler runs one goroutine at a time); see DESIGN.md for the scope statement",
+			"data races are decided by happens-before (vector clock) detection inside every explored execution over the memory accesses that tools/instr -race hooks (struct fields, slice elements, map objects, package variables, closure-shared locals of server/*.go, kvgraph, kvindex, jobstorage/storage.go, timestamp, engine/queue, engine/logic); clocks advance only at spawn, channel, close, mutex, wait-group, Once operations and at store / file-system / sync.Map / cancel calls (one lock each); scheduler hand-offs add no edge; accesses of a statement during which the goroutine synchronised are dropped; unhooked code is invisible",
 		})
 }
